@@ -155,16 +155,14 @@ CHECKS["C18"] = dict(
         "status byte, unlinks only intd/N, mess/(N mod split)/N resp. intd/N, todo/N of the canonical decimal N < 2^64 named by a 'foop/'/'todo/' request of 7..100 bytes, "
         "nothing after 'x', and the whole-stream trace satisfies the oracle predicate; the spawners open only the command's message id, which is digits and non-leading '/', "
         "never spawn for a non-regular or foreign-owned file (one Z report instead), and reports + running children grows by exactly one per command and is preserved by child "
-        "exit/output; the report reader keeps dline <= REPORTMAX, ignores out-of-range/unused delivery numbers, and a report for a delivery in flight frees that slot and marks at "
-        "most that delivery's own record with the single byte D (nothing for an unknown letter). Tied to the current source by a translator for every report text/table and by "
+        "exit/output, over a whole session reports = complete commands, and a child's report body is a fixed text or a letter plus pieces of the child's own output; the report reader keeps dline <= REPORTMAX, ignores out-of-range/unused delivery numbers, and a report for a delivery in flight frees that slot and marks at "
+        "most that delivery's own record with the single byte D (nothing for an unknown letter), and over a whole stream the marks equal those of an independent reference reader and form a sub-multiset of the deliveries in flight. Tied to the current source by a translator for every report text/table and by "
         "running the real code (sanitised build, system calls scripted, fork-free) against the compiled models on 2.6 M (quick) exhaustive and random cases with the property "
         "oracle evaluated on the implementation's traces.",
    note=NOTE_COMMON + "Modelled, not verified: system-call outcomes are inputs; OOM, write errors to the parent, EINTR and the child side after fork are not exercised; "
-        "stream-level counting statements (one report per command over a whole session; marks = reference reader over a whole stream) are checked by the oracle on the real code, "
-        "their per-event steps are theorems. Open finding: heap over-read in qmail-rspawn.c report() for child output without final NUL (notes/C18.md, notes/C18-fix-1.diff).",
+        "the multiset of delivery numbers over a session and the bounce half of sendOK are checked by the oracle only; the session-level report count and the stream-level mark statements are theorems. The heap over-read this check found in qmail-rspawn.c report() is fixed (9e1dfcc); the pre-fix code is a detected mutant.",
    technique="Lean 4 proof (validation cascades, decimal round trip, per-event balance invariants) + translator for report tables + exhaustive/structured differential correspondence of three real programs",
    design="DESIGN.md §2 C18")
-
 CHECKS["C19"] = dict(
    text="Theorems (43, no sorry) over ALL stored messages, command streams and maildirs about the Lean model Nq.Pop3 of qmail-pop3d.c/maildir.c/prioq.c/commands.c and qmail-popup.c: "
         "an RFC 1939 client decodes RETR to exactly the lines of the file plus the documented blank line and TOP n to header+blank+n body lines (no bare LF, dots stuffed, "
@@ -191,10 +189,12 @@ CHECKS["C02"] = dict(
         "by two running injectors (C02_unique_*); every step is a documented move S1>S2>S3>S4>S5>S2>S1 / S3>S2 (C02_moves), bounce/n is removed only after local/remote, info/n only after those and bounce, "
         "mess/n last (C02_order_*); qmail-send asks for collection of intd/mess only right after removing info/n itself or when inode n is older than OSSIFIED = 36 h and it saw no info and no todo - and "
         "then these facts still hold and no running qmail-queue owns n, because DEATH < OSSIFIED (constants regenerated from the sources) (C02_stale, C02_stale_window, C02_timer); only the lock holder "
-        "changes the queue, a refused instance changes nothing (C02_mutex*); crash leaves a reachable state with the same files (C02_crash). The guards of the model are OS facts about succeeded calls "
+        "changes the queue (C02_mutex_needed, from the invariant). Three statements hold by construction of the model and get their force from the guards replayed on real traces plus the oracle, not from the induction: "
+        "C02_inode (the guard m = n of iLinkMess + oracle 'name differs from inode'), C02_mutex (a qmail-send that finds the lock taken has no further event; oracle 'queue changed by a qmail-send that does not hold the lock'), "
+        "C02_crash (a crash changes no name; the point is that the state it leaves is reachable, so everything above holds after it). The guards of the model are OS facts about succeeded calls "
         "and the code's own observations (stat/unlink results since it last slept), never the documented states themselves. Tied to the code by running the real qmail-queue (3 instances), qmail-send "
         "(2 instances) and qmail-clean as threads under the in-memory POSIX simulator with a seeded schedule decision before every queue-directory call, stalled/killed injectors, malformed envelopes, "
-        "single faults, aged leftovers of every kind, clock jumps, world crashes and restarts (2400/60000 scenarios): each trace is replayed through QueueSys.accept, the reconstructed directory is compared "
+        "single faults, aged leftovers of every kind (which the model reaches from the EMPTY queue by a synthesised accepted event sequence, so every replayed run starts from a reachable state), clock jumps, world crashes and restarts, sender forms '', '#@[]', failing bounce injections (2400/60000 seeded scenarios) plus a systematic leg: depth-first enumeration of every interleaving of the queue-file calls for five small configurations (complete for the first in the quick tier; the evidence says per configuration how many partitions were enumerated completely): each trace is replayed through QueueSys.accept, the reconstructed directory is compared "
         "with the simulator's dump, and the oracle evaluates the theorems' predicates on the concrete directory after every mutating call.",
    note=NOTE_COMMON + "Modelled, not verified: OS semantics of DESIGN.md 1.4 as implemented by harness/sim.c (atomic synchronous directory operations, fresh inode numbers, alarm(n) lets no call happen n seconds "
         "later, flock as mutex, atime of a new file = creation time); qmail-clean dies with its qmail-send; bounce injection is a stand-in (C01/C14); spawners scripted; readdir returns at least the entries present "
